@@ -168,6 +168,7 @@ func (e *Exclusive) call(c exclusiveConfig) <-chan *ExclusiveOutcome {
 		// init map and obtain item
 		verifAt("excl.call.emu1.lock", e, 0)
 		e.mutex.Lock()
+		verifAt("excl.call.emu1.locked", e, 0)
 		if e.work == nil {
 			e.work = make(map[interface{}]*exclusiveItem)
 		}
@@ -191,6 +192,7 @@ func (e *Exclusive) call(c exclusiveConfig) <-chan *ExclusiveOutcome {
 		// check validity of item and initialise if so
 		verifAt("excl.call.emu2.lock", e, 0)
 		e.mutex.Lock()
+		verifAt("excl.call.emu2.locked", e, 0)
 		if v, _ := e.work[c.key]; v == item {
 			valid = true
 
@@ -274,6 +276,7 @@ func (e *Exclusive) call(c exclusiveConfig) <-chan *ExclusiveOutcome {
 		// (we still use our current item, but we only want calls started BEFORE this one to share the same result)
 		verifAt("excl.run.emu.lock", e, 0)
 		e.mutex.Lock()
+		verifAt("excl.run.emu.locked", e, 0)
 		nextItem := &exclusiveItem{
 			mutex:   item.mutex,
 			cond:    item.cond,
@@ -325,6 +328,7 @@ func (e *Exclusive) call(c exclusiveConfig) <-chan *ExclusiveOutcome {
 		if nextItem.count == 0 {
 			verifAt("excl.run.del.lock", e, 0)
 			e.mutex.Lock()
+			verifAt("excl.run.del.locked", e, 0)
 			delete(e.work, c.key)
 			e.mutex.Unlock()
 		}
